@@ -1,5 +1,6 @@
 import Resgate.Proofs.Encode
 import Resgate.Proofs.EncodeSpec
+import Resgate.Proofs.Path
 
 /-
 C16 — HTTP resources are a faithful, finite rendering of the resource graph.
@@ -29,6 +30,15 @@ theorem get_is_rendered_expansion (g : HGraph) (pref : String) (flat : Bool) (ri
 theorem reference_is_rendered_expansion (g : HGraph) (pref : String) (flat : Bool) (path : List String) (rid : String) :
     encSub g pref flat path rid true = (expSub g pref flat path rid true).map J.render :=
   encSub_eq_render g pref flat _ path rfl rid true (Or.inl rfl)
+
+/-- **RID ↔ path round trip.** For every resource id — any bytes, incl. a query part, `{cid}`,
+    characters needing escaping — that is non-empty and does not start with a dot, every prefix and
+    every request query, the path printed by `RIDToPath` (hrefs, `Location`) is mapped back to that
+    resource id by `PathToRID`. -/
+theorem href_round_trip (rid pref q : Resgate.Bytes) (hne : rid ≠ []) (hhead : rid.head? ≠ some Resgate.cDot)
+    (hb : ∀ b ∈ rid, b < 256) :
+    pathToRID (ridToPathB rid pref) q pref = if q.isEmpty then rid else rid ++ Resgate.cQm :: q :=
+  pathToRID_ridToPathB rid pref q hne hhead hb
 
 /-- On every finite graph in which references resolve (cycles of any length, self references,
     shared children, error leaves), GET produces a body for every resource — the expansion
@@ -80,5 +90,9 @@ example : expandGET [("a", .model [("k", .ref "a"), ("s", .soft "b")])] "/api/" 
   rw [expandGET, expSub_model _ _ _ _ _ _ _ (by simp) hl]
   rw [expKVs, expVal, expSub, expKVs, expVal, expKVs]
   simp [wrapJ]
+
+-- non-vacuity of the round trip: "a.b?x" with prefix "/api/"
+example : pathToRID (ridToPathB [97, 46, 98, 63, 120] [47, 97, 112, 105, 47]) [] [47, 97, 112, 105, 47] = [97, 46, 98, 63, 120] := by
+  decide
 
 end Resgate.C16
